@@ -10,6 +10,7 @@ by `;`.  Rationals travel as `p/q`.
 `BOX  <shape> | <size> | <pixels>`                      -> `err=…` | `ok <pixels>`  (Bandpass.boxcar)
 `DIFF <shape> | <lshort> | <kernels> | <llong> | <pixels>` -> `ok <pixels>` (unclipped lowpass − boxcar)
 `TR2  <H> <W> | <pixels>`                               -> `ok <pixels>`   (Bandpass.transpose2)
+`SWAP <k> | <shape> | <pixels>`                         -> `ok <pixels>`   (Bandpass.swapImg: axes k, k+1 exchanged)
 -/
 namespace TrackpyV.Driver.C10
 open TrackpyV.Proto TrackpyV.Bandpass
@@ -83,8 +84,17 @@ def handleTr2 (rest : String) : String :=
     | _, _ => "bad-op"
   | _ => "bad-op"
 
+def handleSwap (rest : String) : String :=
+  match splitKeep rest "|" with
+  | [ks, sh, px] =>
+    match parseNat? ks, natList? sh, ratList? px with
+    | some k, some shape, some pixels =>
+      if !okShape shape pixels then "bad-shape" else showArr (swapImg k shape pixels.toArray)
+    | _, _, _ => "bad-op"
+  | _ => "bad-op"
+
 def handlers : List (String × (String → String)) :=
   [("BP", handleBP), ("LOW", handleLow), ("BOX", handleBox), ("DIFF", handleDiff),
-   ("TR2", handleTr2)]
+   ("TR2", handleTr2), ("SWAP", handleSwap)]
 
 end TrackpyV.Driver.C10
